@@ -44,7 +44,15 @@ def base_spec(r, avoid):
     ops.append(gen.channel_op('K-INDEX', '<f8', (n,), fill={'kind': 'lin', 'start': 10.0, 'step': 0.5}, attrs={'units': 'm'}))
     ops.append(gen.channel_op('K-CURVE', '<f4', (n,), fill={'kind': 'pos', 'tag': 321},
                               attrs={'long_name': 'curve long name', 'units': 's'}))
-    ops.append(gen.frame_op('K-FRAME', [len(ops) - 2, len(ops) - 1], index_type='BOREHOLE-DEPTH'))
+    fat = {'index_type': 'BOREHOLE-DEPTH'}
+    # index attributes of which the user specifies only ONE part (a value without units, or units without a value)
+    if r.random() < 0.5:
+        fat['index_min'] = r.choice([10.0, 9.5])
+    if r.random() < 0.4:
+        fat['spacing'] = {'$setup': {'units': 'ft'}, 'route': r.choice(['dict', 'AttrSetup'])}
+    if r.random() < 0.3:
+        fat['index_max'] = {'$setup': {'value': 12.0, 'units': 'in'}, 'route': 'dict'}
+    ops.append(gen.frame_op('K-FRAME', [len(ops) - 2, len(ops) - 1], **fat))
     ops.append({'op': 'long_name', 'name': 'K-LN', 'attrs': {'quantity': 'pressure'}})
     ops.append({'op': 'parameter', 'name': 'K-PARAM', 'attrs': {'values': [r.choice(['text value', 12.5, 7])], 'long_name': 'param text'}})
     ops.append({'op': 'zone', 'name': 'K-ZONE', 'attrs': {'domain': 'TIME', 'maximum': 5.5, 'minimum': 1.0}})
